@@ -572,6 +572,83 @@ Theorem gen_q_append_to_center_refuted :
   py_Q_append_to_center star5 false [PZ;PZ;PZ;PZ;PZ] = FRet ([[PX;PX;PX;PX;PX]] :: [[PZ;PZ;PZ;PZ;PZ]] :: tl star5) /\
   py_Q_append_to_center star5 false [PZ;PZ;PZ;PI;PI] = FRaised (EUser "DependentException").
 Proof. split; vm_compute; reflexivity. Qed.
+
+(* ---- get_lits, lit, get_pq ---- *)
+Theorem gen_q_get_lits legs l vs n : length l = n -> SameLen n vs -> py_Q_get_lits legs l (Some vs) = FRet (AC l vs).
+Proof. intros Hl Hv. unfold py_Q_get_lits. cbv beta iota zeta. apply (gen_q_anti_acc l n Hl vs [] Hv). Qed.
+Theorem gen_q_get_lits_all legs l n : length l = n -> SameLen n (concat legs) -> py_Q_get_lits legs l None = FRet (AC l (concat legs)).
+Proof. intros Hl Hv. unfold py_Q_get_lits, py_Q_get_vertices. cbv beta iota zeta. apply (gen_q_anti_acc l n Hl (concat legs) [] Hv). Qed.
+
+Lemma in_enum_conv {A} (d : A) : forall (l : list A) s k, (k < length l)%nat -> In (Z.of_nat (s + k), nth k l d) (combine (map Z.of_nat (seq s (length l))) l).
+Proof.
+  induction l as [|a l IH]; intros s k Hk; [cbn in Hk; lia|]. cbn [length seq map combine]. destruct k as [|k].
+  - left. rewrite Nat.add_0_r. reflexivity.
+  - right. replace (s + S k)%nat with (S s + k)%nat by lia. apply IH. cbn in Hk. lia.
+Qed.
+Lemma find_loop_total legs : forall idx v, exists li vi, py_Q_find_loop1 idx legs v = FRet (li, vi).
+Proof.
+  induction idx as [|[i leg] idx IH]; intros v; [eexists; eexists; reflexivity|]. cbn [py_Q_find_loop1]. unfold py_Q__find_in_leg. cbv beta iota zeta.
+  destruct (match Collection.find v leg with Some k_ => Z.of_nat k_ | None => -1 end >? -1); [eexists; eexists; reflexivity|apply IH].
+Qed.
+Lemma find_loop_none legs : forall idx v vi, py_Q_find_loop1 idx legs v = FRet (-1, vi) -> (forall i leg, In (i, leg) idx -> 0 <= i) -> forall i leg, In (i, leg) idx -> ~ In v leg.
+Proof.
+  induction idx as [|[i0 leg0] idx IH]; intros v vi H Hpos i leg Hin; [destruct Hin|]. cbn [py_Q_find_loop1] in H.
+  unfold py_Q__find_in_leg in H. cbv beta iota zeta in H. destruct (Collection.find v leg0) as [k|] eqn:EF.
+  - assert (E : (Z.of_nat k >? -1) = true) by lia. rewrite E in H. injection H as H1 _. pose proof (Hpos i0 leg0 (or_introl eq_refl)). lia.
+  - change (-1 >? -1) with false in H. destruct Hin as [Hin|Hin].
+    + injection Hin as <- <-. intros Hv. destruct (find_In v leg0 Hv) as [k Hk]. rewrite Hk in EF. discriminate EF.
+    + apply (IH v vi H (fun j l Hj => Hpos j l (or_intror Hj)) i leg Hin).
+Qed.
+Theorem gen_q_is_included legs v : py_Q_is_included legs v = FRet (memS v (concat legs)).
+Proof.
+  unfold py_Q_is_included. destruct (py_Q_find legs v) as [[li vi]| | | |] eqn:EF.
+  - f_equal. destruct (find_range legs v li vi EF) as [->|Hli].
+    + change (-1 >? -1) with false. symmetry. apply notIn_memS. intros Hin. apply in_concat in Hin. destruct Hin as [leg [Hleg Hv]].
+      destruct (In_nth legs leg [] Hleg) as [k [Hk Hn]].
+      assert (Hc : In (Z.of_nat k, leg) (combine (map Z.of_nat (seq 0 (length legs))) legs)) by (rewrite <- Hn; apply (in_enum_conv [] legs 0%nat k Hk)).
+      unfold py_Q_find in EF. refine (find_loop_none legs _ v vi EF _ _ _ Hc Hv). intros j l Hj. apply in_combine_l in Hj. apply in_map_iff in Hj. destruct Hj as [m [<- _]]. lia.
+    + destruct (gen_q_find legs v li vi EF Hli) as [Hlt [Hvi HF]]. assert (E : (li >? -1) = true) by lia. rewrite E. symmetry. apply In_memS.
+      apply in_concat. exists (nth (Z.to_nat li) legs []). split; [apply nth_In; exact Hlt|]. destruct (find_Some_split v _ _ HF) as [pre [post [-> _]]]. apply in_app_iff. right. left. reflexivity.
+  - exfalso; unfold py_Q_find in EF; destruct (find_loop_total legs (combine (map Z.of_nat (seq 0 (length legs))) legs) v) as [a [b E]]; rewrite E in EF; discriminate EF.
+  - exfalso; unfold py_Q_find in EF; destruct (find_loop_total legs (combine (map Z.of_nat (seq 0 (length legs))) legs) v) as [a [b E]]; rewrite E in EF; discriminate EF.
+  - exfalso; unfold py_Q_find in EF; destruct (find_loop_total legs (combine (map Z.of_nat (seq 0 (length legs))) legs) v) as [a [b E]]; rewrite E in EF; discriminate EF.
+  - exfalso; unfold py_Q_find in EF; destruct (find_loop_total legs (combine (map Z.of_nat (seq 0 (length legs))) legs) v) as [a [b E]]; rewrite E in EF; discriminate EF.
+Qed.
+(* lit(lighting, vertex): the product, unless it is already a vertex *)
+Theorem gen_q_lit legs l v : length l = length v ->
+  py_Q_lit legs l v = if memS (smul l v) (concat legs) then FRaised (EUser "DependentException") else FRet (smul l v).
+Proof. intros H. unfold py_Q_lit. rewrite (multiply_code_ok l v H). cbv beta iota zeta. rewrite gen_q_is_included. reflexivity. Qed.
+
+(* get_pq: a lit single leg p and an unlit one q (and their product) *)
+Lemma get_pq_loop legs l ones lits : forall idx p q pq p', (forall x, In x idx -> In x ones) ->
+  (forall x, p = Some x -> In x ones /\ In x lits) -> (forall x, q = Some x -> In x ones /\ ~ In x lits) ->
+  py_Q_get_pq_loop1 idx legs l ones lits p q = FRet (pq, p') -> exists q', In p' ones /\ In p' lits /\ In q' ones /\ ~ In q' lits /\ multiply_code p' q' = Ok pq.
+Proof.
+  induction idx as [|v idx IH]; intros p q pq p' Hsub Hp Hq H; cbn [py_Q_get_pq_loop1] in H; [discriminate H|]. cbv beta iota zeta in H.
+  destruct (memS v lits) eqn:EM.
+  - apply memS_In in EM. cbn [negb] in H. destruct q as [qv|].
+    + cbn [negb] in H. destruct (multiply_code v qv) as [m|] eqn:EMul; [|discriminate H]. injection H as <- <-. exists qv.
+      destruct (Hq qv eq_refl) as [Q1 Q2]. repeat split; try assumption. apply Hsub. left. reflexivity.
+    + cbn [negb] in H. apply (IH (Some v) None pq p'); try assumption.
+      * intros x Hx. apply Hsub. right. exact Hx.
+      * intros x E. injection E as <-. split; [apply Hsub; left; reflexivity|exact EM].
+  - apply memS_false in EM. destruct p as [pv|].
+    + cbn [negb] in H. destruct (multiply_code pv v) as [m|] eqn:EMul; [|discriminate H]. injection H as <- <-. exists v.
+      destruct (Hp pv eq_refl) as [P1 P2]. repeat split; try assumption. apply Hsub. left. reflexivity.
+    + cbn [negb] in H. apply (IH None (Some v) pq p'); try assumption.
+      * intros x Hx. apply Hsub. right. exact Hx.
+      * intros x E. injection E as <-. split; [apply Hsub; left; reflexivity|exact EM].
+Qed.
+Theorem gen_q_get_pq legs l ones n pq p : py_Q_get_one_vertices legs = FRet ones -> length l = n -> SameLen n ones -> py_Q_get_pq legs l = FRet (pq, p) ->
+  exists q, In p ones /\ In q ones /\ anti l p = true /\ (q = l \/ anti l q = false) /\ pq = smul p q.
+Proof.
+  intros HO Hl Hn H. unfold py_Q_get_pq in H. rewrite HO in H. cbv beta iota zeta in H. rewrite (gen_q_get_lits legs l ones n Hl Hn) in H. cbv beta iota zeta in H.
+  destruct (get_pq_loop legs l ones (AC l ones) ones None None pq p (fun x Hx => Hx) ltac:(intros x E; discriminate E) ltac:(intros x E; discriminate E) H) as [q [P1 [P2 [Q1 [Q2 HM]]]]].
+  exists q. apply AC_In in P2. destruct P2 as [_ [_ P3]]. split; [exact P1|]. split; [exact Q1|]. split; [exact P3|]. split.
+  - destruct (pstr_eqb q l) eqn:E; [left; apply pstr_eqb_eq; exact E|right]. destruct (anti l q) eqn:EA; [|reflexivity]. exfalso. apply Q2. apply AC_In. repeat split; [exact Q1| |exact EA].
+    intros ->. rewrite (proj2 (pstr_eqb_eq l l) eq_refl) in E. discriminate E.
+  - rewrite (multiply_code_ok p q) in HM by (rewrite (Hn p P1), (Hn q Q1); reflexivity). injection HM as <-. reflexivity.
+Qed.
 Print Assumptions gen_q_anti_commutates.
 Print Assumptions gen_q_max_connected.
 Print Assumptions gen_q_append_to_queue.
@@ -587,3 +664,7 @@ Print Assumptions gen_q_remove_accounts.
 Print Assumptions gen_q_replace_accounts.
 Print Assumptions gen_q_append_to_center.
 Print Assumptions gen_q_append_to_center_refuted.
+Print Assumptions gen_q_get_lits.
+Print Assumptions gen_q_is_included.
+Print Assumptions gen_q_lit.
+Print Assumptions gen_q_get_pq.
